@@ -67,7 +67,7 @@ def container_error_paths(rec, r, rec_wrap, rec_unwrap, B2):
         for bad in failing:
             rec_unwrap(rec, enc, spec, bad)                     # refused (length / marker / CRC) ...
             rec_unwrap(rec, enc, spec, good)                    # ... and the next valid unwrap must still succeed
-            p = rand(r.choice([0, 17, 26]))
+            p = rand(r.choice([0, 17, 26]) if flavour else r.choice([12, 17, 26]))     # (customer-key slot: payload must contain it)
             rec_unwrap(rec, enc, spec, rec_wrap(rec, enc, spec, p))
         for too_long in (254, 255, 300):
             try:
